@@ -95,6 +95,8 @@ type caseGen struct {
 	big     bool
 	shared  bool
 	caseTag string
+
+	plainPack bool
 }
 
 func (g *caseGen) genHash() common.Hash {
@@ -133,6 +135,9 @@ func (g *caseGen) newTx() *types.Transaction {
 	} else {
 		nonce = b + d - 2
 	}
+	if g.r.Intn(5) == 0 { // uint64 boundary nonces, absolute and relative to the sender's state nonce
+		nonce = g.boundary(b)
+	}
 	var rid uint64
 	switch g.r.Intn(10) {
 	case 0, 1:
@@ -150,6 +155,15 @@ func (g *caseGen) newTx() *types.Transaction {
 		tx.SubTransactions = []types.UserData{{Address: uint64(g.r.Intn(100))}}
 	}
 	return tx
+}
+
+// boundary values of uint64 nonce arithmetic: around 2^63 (sign bit), around 2^64 (wrap-around), and at
+// those distances from a base value
+func (g *caseGen) boundary(base uint64) uint64 {
+	const h = uint64(1) << 63
+	vals := []uint64{h - 1, h, h + 1, math.MaxUint64, math.MaxUint64 - 1, 0, 1,
+		base + h, base + h - 1, base + h + 1, base - 1, base + math.MaxUint64 - 1, base + 1, base}
+	return vals[g.r.Intn(len(vals))]
 }
 
 func (g *caseGen) addTbl(tx *types.Transaction) int {
@@ -235,6 +249,7 @@ func checkPack(f flags, packed []*types.Transaction, recv []*types.Transaction, 
 	}
 	seen := map[common.Hash]bool{}
 	exp := map[string]uint64{}
+	past64 := map[string]bool{} // the mathematical expected nonce has reached 2^64: no uint64 nonce is ahead of it
 	last := map[string]uint64{}
 	has := map[string]bool{}
 	for _, t := range packed {
@@ -258,11 +273,17 @@ func checkPack(f flags, packed []*types.Transaction, recv []*types.Transaction, 
 		if !ok {
 			e = nonces[t.Source]
 		}
-		if t.Nonce > e {
-			violate("C17/pack:ahead-of-nonce", fmt.Sprintf("nonce %d packed, sender's next expected nonce %d", t.Nonce, e), input())
-		}
-		if t.Nonce == e {
-			e++
+		if !past64[t.Source] {
+			if t.Nonce > e {
+				violate("C17/pack:ahead-of-nonce", fmt.Sprintf("nonce %d packed, sender's next expected nonce %d", t.Nonce, e), input())
+			}
+			if t.Nonce == e {
+				if e == math.MaxUint64 {
+					past64[t.Source] = true
+				} else {
+					e++
+				}
+			}
 		}
 		exp[t.Source] = e
 		if f.orderOK() && has[t.Source] && t.Nonce < last[t.Source] {
@@ -331,8 +352,13 @@ func (g *caseGen) doPack() {
 	var st []string
 	for _, s := range g.srcs {
 		n := g.base[s]
-		if g.r.Intn(4) == 0 {
-			n = uint64(g.r.Intn(4))
+		if !g.plainPack {
+			switch g.r.Intn(8) {
+			case 0, 1:
+				n = uint64(g.r.Intn(4))
+			case 2:
+				n = g.boundary(n)
+			}
 		}
 		nonces[s] = n
 		_, sn := txNum(&types.Transaction{Source: s})
@@ -607,15 +633,15 @@ func oneCase(r *hx.Rng, cs *hx.Cases, idx int, big bool) {
 			continue
 		}
 		g.srcs = append(g.srcs, s)
-		g.base[s] = []uint64{0, 0, 3, 1000, 1 << 40}[r.Intn(5)]
+		g.base[s] = []uint64{0, 0, 3, 1000, 1 << 40, 1<<63 - 1, 1 << 63, math.MaxUint64 - 1, math.MaxUint64}[r.Intn(9)]
 	}
 	nops := 6 + r.Intn(40)
 	if big {
 		// fill past the per-block limit, then a few mixed operations
-		n := perBlock + 10 + r.Intn(60)
+		n := perBlock + perBlock/4 + 10 + r.Intn(40)
 		for i := 0; i < n; i++ {
 			tx := g.newTx()
-			if r.Intn(3) != 0 {
+			if r.Intn(8) != 0 {
 				tx.RequestId = 0
 				tx.Nonce = g.base[tx.Source] + uint64(r.Intn(3)) // mostly packable
 			}
@@ -628,7 +654,9 @@ func oneCase(r *hx.Rng, cs *hx.Cases, idx int, big bool) {
 			g.emit(fmt.Sprintf("SAdd %d %s %d", ix, hx.CoqBool(ok), ec), map[string]interface{}{"op": "add", "tx": descTx(tx), "ok": ok}, false)
 		}
 		nops = 4 + r.Intn(4)
+		g.plainPack = true // the state nonces the transactions were generated around: the batch reaches the cap
 		g.doPack()
+		g.plainPack = false
 	}
 	g.run(nops)
 	tb := make([]string, len(g.tbl))
